@@ -12,7 +12,7 @@ for f in harness/standin_*.c; do
   cc -O2 -g -o "build/$b" "$f"
 done
 # the specifications must at least parse
-( cd spec && for m in *.tla; do
+( cd spec && rm -f *_TTrace_* && for m in *.tla; do
   java -cp /opt/veriftools/tla/tla2tools.jar:/opt/veriftools/tla/CommunityModules-deps.jar tla2sany.SANY "$m" >/dev/null 2>&1 || { echo "SANY failed on $m" >&2; exit 1; }
 done )
 echo setup ok
